@@ -158,7 +158,7 @@ def run_impl(schedule, restart):
         for kind, x in schedule:
             if kind == 'start':
                 tasks[x] = asyncio.ensure_future(H(app).diff(None, None, None, {'rid': x}))
-            elif kind in ('ok', 'broken'):
+            elif kind in ('ok', 'broken', 'error'):
                 fut = None
                 for p in pools:
                     if x in p.pending:
@@ -167,6 +167,9 @@ def run_impl(schedule, restart):
                     raise AssertionError('request %s has no pending job' % x)
                 if kind == 'ok':
                     fut.set_result({'diff': x})
+                elif kind == 'error':
+                    # the diff job itself fails in the worker (observer-only event: the pool is healthy)
+                    fut.set_exception([RecursionError('maximum recursion depth exceeded'), RuntimeError('differ failed'), ValueError('bad input')][x % 3])
                 else:
                     fut.set_exception(BrokenProcessPool('broken (fake)'))
             elif kind == 'break':
